@@ -1,9 +1,10 @@
 // C17 - neural-network routines equal their reference (PyTorch/NumPy) definitions  (E1, bounded exhaustive)
 //
-// One source, six translation units selected by exactly one of
+// One source, seven translation units selected by exactly one of
 //     -DC17_CONV1D   conv1d                       -DC17_CONV2D   conv2d
 //     -DC17_POOL     max_pool2d, avg_pool2d       -DC17_SOFTMAX  softmax, softmin
-//     -DC17_NORM     batch/layer/instance/group   -DC17_MISC     linear, bilinear, pairwise_distance, cosine_similarity
+//     -DC17_NORM     batch/layer/instance norm    -DC17_GNORM    group_norm
+//     -DC17_MISC     linear, bilinear, pairwise_distance, cosine_similarity
 // Oracle: engine/nmc_ref_c17.hpp (nested loops from the PyTorch documentation; validated against all 111 upstream
 // expectation literals of include/nmtools/testing/data/array/*.hpp and against NumPy formulas, see the selftest).
 //
@@ -21,8 +22,8 @@
 //               batch_norm (no statistics computed): the input has >= 2 elements
 //   linear / bilinear : the contraction has >= 2 terms or the result has >= 2 elements
 //   pairwise_distance / cosine_similarity : the reduced axis has extent >= 2
-#if !defined(C17_CONV1D) && !defined(C17_CONV2D) && !defined(C17_POOL) && !defined(C17_SOFTMAX) && !defined(C17_NORM) && !defined(C17_MISC)
-#error "select a unit: -DC17_CONV1D | -DC17_CONV2D | -DC17_POOL | -DC17_SOFTMAX | -DC17_NORM | -DC17_MISC"
+#if !defined(C17_CONV1D) && !defined(C17_CONV2D) && !defined(C17_POOL) && !defined(C17_SOFTMAX) && !defined(C17_NORM) && !defined(C17_GNORM) && !defined(C17_MISC)
+#error "select a unit: -DC17_CONV1D | -DC17_CONV2D | -DC17_POOL | -DC17_SOFTMAX | -DC17_NORM | -DC17_GNORM | -DC17_MISC"
 #endif
 #ifdef C17_CONV1D
 #include "nmtools/array/array/conv1d.hpp"
@@ -41,6 +42,8 @@
 #include "nmtools/array/array/batch_norm.hpp"
 #include "nmtools/array/array/layer_norm.hpp"
 #include "nmtools/array/array/instance_norm.hpp"
+#endif
+#ifdef C17_GNORM
 #include "nmtools/array/array/group_norm.hpp"
 #endif
 #ifdef C17_MISC
@@ -64,8 +67,9 @@ template <typename V, typename A> static Outcome both(const V& lazy, const A& ea
     if (!o.fail.empty()) { o.fail = "view: " + o.fail; return o; }
     Outcome e = judge(oe, want, nontriv, rtol);
     if (!e.fail.empty()) { e.fail = "array: " + e.fail; return e; }
-    std::string s = same(ol, oe, "view vs array");
-    if (!s.empty()) return Outcome::bad("wrong", s, nontriv, ol.hash());
+    // exact families: lazy and eager must be identical.  Tolerance families: both are within rtol of the model, which is what the
+    // property states (the eager result may be rounded to a narrower element type, e.g. avg_pool2d evaluates to float)
+    if (rtol == 0) { std::string s = same(ol, oe, "view vs array"); if (!s.empty()) return Outcome::bad("wrong", s, nontriv, ol.hash()); }
     return o;
 }
 static RArr values(const L& shape, double base, double step = 1) { RArr r(shape); for (size_t i = 0; i < r.data.size(); i++) r.data[i] = base + step * (double)i; return r; }
@@ -140,7 +144,8 @@ static void enumerate_unit(const nmc::Tier& t, const nmc::Sink& emit) {
     // The full cross of the property (2 x 22 x 49 x 7 x 18^2 x 2 ~ 10^8 conv2d calls) is far beyond the run budget; it is covered by
     // these exhaustive sub-grids, each complete in the dimensions it varies:
     //  (a) spatial sweep, batch 1, stride/padding/dilation equal on both axes, bias absent and present:
-    //        thorough: all 22 (C,O,groups) triples x H,W in 1..7 ;  quick: triples (1,1,1), (2,2,2) x H,W in 1..5
+    //        thorough: all 22 (C,O,groups) triples x H,W in 1..5, and H,W in 1..7 for the narrow triples (C*O/groups <= 2:
+    //        (1,1,1), (1,2,1), (2,1,1), (2,2,2); a 4x4-channel 7x7 case costs ~20 ms) ;  quick: triples (1,1,1), (2,2,2) x H,W in 1..5
     //  (b) quick only - channel sweep: all 22 triples x H,W in 1..2 (equal arguments, both bias settings)
     //  (c) batch 2 (on the pinned tree every batch-2 convolution aborts; one contained crash costs ~8 ms):
     //        thorough: triples with C,O <= 2 or groups > 1, H,W in 1..3 ;  quick: triples (1,1,1), (2,2,1), (2,2,2), H,W in 1..2
@@ -149,7 +154,7 @@ static void enumerate_unit(const nmc::Tier& t, const nmc::Sink& emit) {
     //  (e) thorough only - every per-axis (sh,sw,ph,pw,dh,dw) combination, H,W in 1..5: (1,1,1) without bias, (2,2,2) with bias
     each_channels([&](long C, long O, long g) {
         bool spatial_q = (C == 1 && O == 1) || (C == 2 && O == 2 && g == 2);
-        long E = T ? 7 : 5;
+        long E = (T && C * O / g <= 2) ? 7 : 5;
         for (long H = 1; H <= E; H++) for (long W = 1; W <= E; W++) {
             if (!T && !spatial_q && !(H <= 2 && W <= 2)) continue;
             bool scalar = C <= 2 && O <= 2 && (T ? (H <= 5 && W <= 5) : (H <= 3 && W <= 3));
@@ -202,6 +207,280 @@ static void selftest_unit() {
     if (nmc::diff(wrong, r).empty()) nmc::die("selftest: oracle blind to a wrong group assignment");
     Obs wshape = r->obs(); wshape.shape = {1, 1, 4}; if (nmc::diff(wshape, r).empty()) nmc::die("selftest: oracle blind to a wrong shape");
     if (ref::convnd(x, w1, nullptr, {1}, {0}, {2}, 1)) nmc::die("selftest: non-positive output size must be outside the domain");
+}
+#endif
+
+// distinct values in a scrambled order (a window/axis neighbourhood is never monotone): ((i*113+11) mod 307)+1, distinct for < 307 elements
+static RArr scrambled(const L& shape, double scale = 1.0, double offset = 0.0) { RArr r(shape); if (r.size() > 307) nmc::die("scrambled: too many elements"); for (size_t i = 0; i < r.data.size(); i++) r.data[i] = offset + scale * (double)(((long)i * 113 + 11) % 307 + 1); return r; }
+
+// ================================================================================================ pooling
+#ifdef C17_POOL
+// key: maxpool|avgpool | input shape (..., H, W) | kh,kw | sh,sw | ceil_mode
+static void enumerate_unit(const nmc::Tier& t, const nmc::Sink& emit) {
+    long E = 7;                                                // both tiers: H,W in 1..7 (cheap); the tiers differ in the leading (batch/channel) axes
+    std::vector<L> leading = t.thorough() ? std::vector<L>{{}, {2}, {1, 1}, {2, 3}} : std::vector<L>{{}, {2, 2}};
+    for (auto& lead : leading) for (long H = 1; H <= E; H++) for (long W = 1; W <= E; W++)
+        for (long kh = 1; kh <= 3; kh++) for (long kw = 1; kw <= 3; kw++) for (long sh = 1; sh <= 3; sh++) for (long sw = 1; sw <= 3; sw++) for (long ceil = 0; ceil <= 1; ceil++) {
+            if (kh > H || kw > W) continue;                    // kernel larger than the input: PyTorch raises, outside the property
+            L s(lead); s.push_back(H); s.push_back(W);
+            emit(Case("maxpool", {s, {kh, kw}, {sh, sw}, {ceil}}));
+            emit(Case("avgpool", {s, {kh, kw}, {sh, sw}, {ceil}}));
+        }
+}
+// adds the ceil_mode diagnosis to a shape failure: which formula the observed shape follows, and how many observed
+// output elements have a window without any in-bounds input element (no definition assigns those a value)
+static std::string pool_shape_note(const Obs& o, const RArr& x, const L& k, const L& st, bool ceil) {
+    if (!o.has || o.bad_shape || o.shape.size() != x.shape.size()) return "";
+    size_t d = x.shape.size(); std::string note;
+    { bool documented = true; for (int a = 0; a < 2; a++) if (o.shape[d - 2 + a] != ref::pool_out_extent(x.shape[d - 2 + a], k[a], st[a], ceil)) documented = false; if (documented) return ""; }
+    bool nodrop = true; for (int a = 0; a < 2; a++) if (o.shape[d - 2 + a] != ref::pool_out_extent_nodrop(x.shape[d - 2 + a], k[a], st[a], ceil)) nodrop = false;
+    if (nodrop) note += " [observed shape = ceil((in-k)/stride)+1 without PyTorch's rule that a window starting beyond the input is dropped]";
+    long empty = 0; nmc::each_index(o.shape, [&](const L& i) { if (ref::pool_window_inbounds(x.shape[d - 2], k[0], st[0], i[d - 2]) == 0 || ref::pool_window_inbounds(x.shape[d - 1], k[1], st[1], i[d - 1]) == 0) empty++; });
+    if (empty) note += " [" + std::to_string(empty) + " output element(s) whose window contains no in-bounds input element]";
+    return note;
+}
+static Outcome execute_unit(const Case& c) {
+    const L& s = c.a[0]; const L& k = c.a[1]; const L& st = c.a[2]; bool ceil = c.a[3][0] != 0; bool is_max = c.op == "maxpool";
+    RArr x = scrambled(s);
+    ROpt want = ref::pool2d(x, k, st, ceil, is_max);
+    if (!want) return Outcome::bad("wrong", "harness: case outside the domain was enumerated");
+    bool nt = want->size() >= 2 || std::min(k[0], s[s.size() - 2]) * std::min(k[1], s[s.size() - 1]) >= 2;
+    il K = to_il(k), S = to_il(st);
+    Outcome r;
+    if (is_max) { auto X = make_arr<long>(x); const auto v = view::max_pool2d(X, K, S, ceil); Obs ov = nmc::observe(v); r = both(v, na::max_pool2d(X, K, S, ceil), want, nt); if (!r.fail.empty()) r.fail += pool_shape_note(ov, x, k, st, ceil); }
+    else { auto X = make_arr<double>(x); const auto v = view::avg_pool2d(X, K, S, ceil); Obs ov = nmc::observe(v); r = both(v, na::avg_pool2d(X, K, S, ceil), want, nt, 1e-5); if (!r.fail.empty()) r.fail += pool_shape_note(ov, x, k, st, ceil); }
+    return r;
+}
+static void selftest_unit() {
+    // upstream literals (PyTorch): max_pool2d case1 (4x4 iota, k 3, s 2, ceil) -> [[10,11],[14,15]]; avg_pool2d case1 -> [[5,6.5],[11,12.5]]
+    RArr x = values({1, 1, 4, 4}, 0);
+    ROpt m = ref::pool2d(x, {3, 3}, {2, 2}, true, true); if (!m || m->shape != L{1, 1, 2, 2} || m->data != std::vector<double>{10, 11, 14, 15}) nmc::die("selftest: max_pool2d case1");
+    ROpt a = ref::pool2d(x, {3, 3}, {2, 2}, true, false); if (!a || a->data != std::vector<double>{5, 6.5, 11, 12.5}) nmc::die("selftest: avg_pool2d case1 (divisor = in-bounds count)");
+    m = ref::pool2d(x, {2, 2}, {3, 3}, true, true); if (!m || m->shape != L{1, 1, 2, 2} || m->data != std::vector<double>{5, 7, 13, 15}) nmc::die("selftest: max_pool2d case10");
+    m = ref::pool2d(x, {3, 3}, {2, 1}, false, true); if (!m || m->shape != L{1, 1, 1, 2}) nmc::die("selftest: max_pool2d case5 shape");
+    // PyTorch's documented drop rule: in 5, k 1, stride 3, ceil -> 2 (not 3)
+    if (ref::pool_out_extent(5, 1, 3, true) != 2 || ref::pool_out_extent_nodrop(5, 1, 3, true) != 3 || ref::pool_out_extent(5, 1, 3, false) != 2 || ref::pool_out_extent(4, 3, 2, true) != 2) nmc::die("selftest: pool_out_extent");
+    // canned bug 1: dividing an overhanging window by the full kernel size must be flagged
+    Obs wrong = a->obs(); wrong.data[1] = (2 + 3 + 6 + 7 + 10 + 11) / 9.0; if (nmc::diff(wrong, a, 1e-5).empty()) nmc::die("selftest: oracle blind to a full-kernel divisor");
+    // canned bug 2: an extra (empty) window along an axis must be flagged as a shape failure and be counted by the note
+    RArr x5 = values({5, 5}, 1); ROpt w5 = ref::pool2d(x5, {1, 1}, {3, 3}, true, true); if (!w5 || w5->shape != L{2, 2}) nmc::die("selftest: drop rule in the model");
+    Obs extra; extra.shape = {3, 3}; extra.data.assign(9, 0.0); if (nmc::diff(extra, w5).empty()) nmc::die("selftest: oracle blind to the extra window");
+    if (pool_shape_note(extra, x5, {1, 1}, {3, 3}, true).find("5 output element(s)") == std::string::npos) nmc::die("selftest: empty-window note");
+}
+#endif
+
+// ================================================================================================ softmax / softmin
+#ifdef C17_SOFTMAX
+// key: softmax|softmin | shape | axis | dtype (0 double, 1 float, 2 long)
+static void enumerate_unit(const nmc::Tier& t, const nmc::Sink& emit) {
+    long e = t.thorough() ? 4 : 3;
+    nmc::each_shape_range(1, 4, e, [&](const L& s) {
+        long d = (long)s.size();
+        for (long a = -d; a < d; a++) for (long dt = 0; dt <= 2; dt++) { emit(Case("softmax", {s, {a}, {dt}})); emit(Case("softmin", {s, {a}, {dt}})); }
+    });
+}
+template <typename T> static Outcome run_softmax(bool neg, const RArr& x, int axis, const ROpt& want, bool nt, double rtol) {
+    auto X = make_arr<T>(x);
+    if (neg) return both(view::softmin(X, axis), na::softmin(X, axis), want, nt, rtol);
+    return both(view::softmax(X, axis), na::softmax(X, axis), want, nt, rtol);
+}
+static Outcome execute_unit(const Case& c) {
+    const L& s = c.a[0]; long axis = c.a[1][0], dt = c.a[2][0]; bool neg = c.op == "softmin";
+    // double/float: distinct multiples of 1/16 in (0, 19.2]; long: small integers 0..8 (exp of larger integer gaps underflows the tolerance)
+    RArr x = scrambled(s, 1.0 / 16);
+    if (dt == 2) for (auto& v : x.data) v = (double)((long)(v * 16) % 9);
+    ROpt want = neg ? ref::softmin(x, axis) : ref::softmax(x, axis);
+    if (!want) return Outcome::bad("wrong", "harness: case outside the domain was enumerated");
+    long ax = axis < 0 ? axis + (long)s.size() : axis; bool nt = s[(size_t)ax] >= 2;
+    if (dt == 0) return run_softmax<double>(neg, x, (int)axis, want, nt, 1e-9);
+    if (dt == 1) return run_softmax<float>(neg, x, (int)axis, want, nt, 1e-5);
+    return run_softmax<long>(neg, x, (int)axis, want, nt, 1e-5);
+}
+static void selftest_unit() {
+    // upstream literal softmax case3 (PyTorch): row [0,1,2,3,4] -> 0.011656 0.031685 0.086129 0.234122 0.636409; softmin is the mirror image
+    RArr x = values({2, 5}, 0); ROpt r = ref::softmax(x, 1); const double lit[5] = {0.011656, 0.031685, 0.086129, 0.234122, 0.636409};
+    for (int i = 0; i < 5; i++) if (!r || std::fabs(r->data[(size_t)i] - lit[i]) > 1e-6 || std::fabs(r->data[(size_t)(5 + i)] - lit[i]) > 1e-6) nmc::die("selftest: softmax case3");
+    ROpt m = ref::softmin(x, -1); for (int i = 0; i < 5; i++) if (!m || std::fabs(m->data[(size_t)i] - lit[4 - i]) > 1e-6) nmc::die("selftest: softmin case3");
+    ROpt c0 = ref::softmax(x, 0); if (!c0 || std::fabs(c0->data[0] - 0.006693) > 1e-6 || std::fabs(c0->data[5] - 0.993307) > 1e-6) nmc::die("selftest: softmax case2 (axis 0)");
+    // canned bug: softmax over the wrong axis must be flagged
+    if (nmc::diff(c0->obs(), r, 1e-9).empty()) nmc::die("selftest: oracle blind to a wrong softmax axis");
+}
+#endif
+
+// ================================================================================================ normalisations
+#if defined(C17_NORM) || defined(C17_GNORM)
+// keys: batch_norm | input shape (N,C,...)            layer_norm | input shape | number of normalised trailing axes
+//       instance_norm | input shape | nd            group_norm | input shape (N,C,...) | num_groups
+static void enumerate_unit(const nmc::Tier& t, const nmc::Sink& emit) {
+#ifdef C17_NORM
+    long e = t.thorough() ? 4 : 3;
+    // inputs of dimension 2..4 with every extent in 1..e
+    nmc::each_shape_range(2, 4, e, [&](const L& s) {
+        long d = (long)s.size();
+        if (s[0] <= 2) emit(Case("batch_norm", {s}));
+        for (long k = 1; k <= d; k++) emit(Case("layer_norm", {s, {k}}));
+        for (long nd = 1; nd <= 3; nd++) if (d == nd + 1 || d == nd + 2) emit(Case("instance_norm", {s, {nd}}));
+    });
+#else
+    // group_norm: N 1..2, C 1..6 (4 quick) with every divisor as num_groups, trailing extents 1..3
+    long Cmax = t.thorough() ? 6 : 4;
+    for (long N = 1; N <= 2; N++) for (long C = 1; C <= Cmax; C++) for (long g = 1; g <= C; g++) if (divides(g, C))
+        for (int extra = 0; extra <= 2; extra++) nmc::each_shape(extra, 3, [&](const L& sp) { L s{N, C}; for (long v : sp) s.push_back(v); emit(Case("group_norm", {s, {g}})); });
+#endif
+}
+static const double EPS_DEFAULT = (double)1e-5f;   // the routines' default argument is float{1e-5}
+static Outcome execute_unit(const Case& c) {
+    const L& s = c.a[0]; long d = (long)s.size();
+    RArr x = scrambled(s, 0.25);
+    auto X = make_arr<double>(x);
+#ifdef C17_NORM
+    if (c.op == "batch_norm") {
+        long C = s[1]; RArr mean = values({C}, 3.5, 1.25), var = values({C}, 0.75, 0.5), w = values({C}, 2, 1), b = values({C}, 101, 7);
+        ROpt want = ref::batch_norm(x, mean, var, w, b, EPS_DEFAULT);
+        auto M = make_arr<double>(mean), V = make_arr<double>(var), W = make_arr<double>(w), Bi = make_arr<double>(b);
+        Outcome r = both(view::batch_norm(X, M, V, W, Bi), na::batch_norm(X, M, V, W, Bi), want, x.size() >= 2, 1e-9);
+        if (!r.fail.empty() && d == 3) {   // triage aid: does the result follow the unbatched (C,H,W) reading of a 3-d input?
+            ROpt chw = s[0] == C ? ref::batch_norm(x, mean, var, w, b, EPS_DEFAULT, 0) : std::nullopt;
+            const auto v = view::batch_norm(X, M, V, W, Bi); if (chw && nmc::diff(nmc::observe(v), chw, 1e-9).empty()) r.fail += " [equals the (C,H,W) channel-first reading]";
+        }
+        return r;
+    }
+    if (c.op == "layer_norm") {
+        long k = c.a[1][0]; L ws(s.end() - k, s.end()); RArr w = values(ws, 2, 1), b = values(ws, 101, 7);
+        ROpt want = ref::layer_norm(x, w, b, EPS_DEFAULT);
+        auto W = make_arr<double>(w), Bi = make_arr<double>(b);
+        return both(view::layer_norm(X, W, Bi), na::layer_norm(X, W, Bi), want, nmc::prod(ws) >= 2, 1e-9);
+    }
+    if (c.op == "instance_norm") {
+        long nd = c.a[1][0]; long C = s[(size_t)(d - nd - 1)]; RArr w = values({C}, 2, 1), b = values({C}, 101, 7);
+        ROpt want = ref::instance_norm(x, w, b, nd, EPS_DEFAULT);
+        auto W = make_arr<double>(w), Bi = make_arr<double>(b);
+        L sp(s.end() - nd, s.end()); bool nt = nmc::prod(sp) >= 2;
+        if (nd == 1) return both(view::instance_norm_1d(X, W, Bi), na::instance_norm_1d(X, W, Bi), want, nt, 1e-9);
+        if (nd == 2) return both(view::instance_norm_2d(X, W, Bi), na::instance_norm_2d(X, W, Bi), want, nt, 1e-9);
+        return both(view::instance_norm_3d(X, W, Bi), na::instance_norm_3d(X, W, Bi), want, nt, 1e-9);
+    }
+#else
+    if (c.op == "group_norm") {
+        long C = s[1], g = c.a[1][0]; RArr w = values({C}, 2, 1), b = values({C}, 101, 7);
+        ROpt want = ref::group_norm(x, g, w, b, EPS_DEFAULT);
+        auto W = make_arr<double>(w), Bi = make_arr<double>(b); int G = (int)g;
+        L sp(s.begin() + 2, s.end()); bool nt = (C / g) * nmc::prod(sp) >= 2;
+        return both(view::group_norm(X, G, W, Bi), na::group_norm(X, G, W, Bi), want, nt, 1e-9);
+    }
+#endif
+    nmc::die("unknown op");
+}
+static void selftest_unit() {
+    // upstream literals (PyTorch), all on input = iota:
+    RArr x = values({1, 5, 2, 2}, 0), w5 = values({5}, 1, 0), b5 = values({5}, 0, 0);
+    // instance_norm case1 / group_norm case1 (5 groups): every channel -> [-1.3416, -0.4472, 0.4472, 1.3416]
+    ROpt r = ref::instance_norm(x, w5, b5, 2, 1e-5); if (!r || std::fabs(r->data[0] + 1.3416) > 1e-4 || std::fabs(r->data[6] - 0.4472) > 1e-4) nmc::die("selftest: instance_norm case1");
+    ROpt g5 = ref::group_norm(x, 5, w5, b5, 1e-5); if (!g5 || nmc::diff(g5->obs(), r, 1e-12) != "") nmc::die("selftest: group_norm(5 groups) = instance_norm");
+    // group_norm case2 (1 group): first element -1.6475, last 1.6475
+    ROpt g1 = ref::group_norm(x, 1, w5, b5, 1e-5); if (!g1 || std::fabs(g1->data[0] + 1.6475) > 1e-4 || std::fabs(g1->data[19] - 1.6475) > 1e-4) nmc::die("selftest: group_norm case2");
+    // layer_norm case2: (2,3,4) iota, weight = bias-free ones over the last axis -> rows [-1.3416,-0.4472,0.4472,1.3416]
+    RArr y = values({2, 3, 4}, 0), w4 = values({4}, 1, 0), b4 = values({4}, 0, 0);
+    ROpt l = ref::layer_norm(y, w4, b4, 1e-5); if (!l || std::fabs(l->data[0] + 1.3416) > 1e-4 || std::fabs(l->data[23] - 1.3416) > 1e-4) nmc::die("selftest: layer_norm");
+    // batch_norm case1: mean .3 var .1 weight 1 bias .25 -> first element -0.6986, second 2.4635
+    RArr xb = values({1, 2, 5, 5}, 0), m2 = values({2}, 0.3, 0), v2 = values({2}, 0.1, 0), w2 = values({2}, 1, 0), b2 = values({2}, 0.25, 0);
+    ROpt bn = ref::batch_norm(xb, m2, v2, w2, b2, 1e-5); if (!bn || std::fabs(bn->data[0] + 0.6986) > 1e-4 || std::fabs(bn->data[1] - 2.4635) > 1e-4) nmc::die("selftest: batch_norm case1");
+    // canned bugs: unbiased variance (ddof 1) and group statistics over the wrong channel split must be flagged
+    Obs wrong = r->obs(); for (auto& v : wrong.data) v *= std::sqrt(3.0 / 4.0); if (nmc::diff(wrong, r, 1e-9).empty()) nmc::die("selftest: oracle blind to ddof=1");
+    if (nmc::diff(g1->obs(), g5, 1e-9).empty()) nmc::die("selftest: oracle blind to a wrong group count");
+}
+#endif
+
+// ================================================================================================ linear, bilinear, distances
+#ifdef C17_MISC
+// keys: linear | input shape (*,in) | weight shape (out,in) or (in) | bias 0/1
+//       bilinear | leading shape | in1,in2,out | bias 0/1
+//       pairwise_distance | a shape | b shape | ord, keepdims           cosine_similarity | a shape | b shape | axis
+// partner shapes for the broadcasting binary routines: equal, last axis only, first axis 1, an extra leading axis of extent 2
+static std::vector<L> partners(const L& s) {
+    std::vector<L> r{s};
+    if (s.size() >= 2) { r.push_back(L{s.back()}); L t(s); t[0] = 1; if (t != s) r.push_back(t); }
+    L u{2}; for (size_t i = 0; i < s.size(); i++) u.push_back(i + 1 < s.size() && i == 0 ? 1 : s[i]); r.push_back(u);
+    return r;
+}
+static void enumerate_unit(const nmc::Tier& t, const nmc::Sink& emit) {
+    long e = t.thorough() ? 4 : 3;
+    nmc::each_shape_range(1, 3, e, [&](const L& s) {
+        long in = s.back();
+        emit(Case("linear", {s, {in}, {0}}));
+        for (long out = 1; out <= e; out++) for (long b = 0; b <= 1; b++) emit(Case("linear", {s, {out, in}, {b}}));
+        for (auto& p : partners(s)) {
+            for (long ord = 1; ord <= 2; ord++) for (long kd = 0; kd <= 1; kd++) { emit(Case("pairwise_distance", {s, p, {ord, kd}})); if (p != s) emit(Case("pairwise_distance", {p, s, {ord, kd}})); }
+            long d = (long)std::max(s.size(), p.size());
+            for (long a = -d; a < d; a++) { emit(Case("cosine_similarity", {s, p, {a}})); if (p != s) emit(Case("cosine_similarity", {p, s, {a}})); }
+        }
+    });
+    for (int ld = 0; ld <= 2; ld++) nmc::each_shape(ld, 3, [&](const L& lead) {
+        for (long i1 = 1; i1 <= e; i1++) for (long i2 = 1; i2 <= e; i2++) for (long out = 1; out <= 3; out++) for (long b = 0; b <= 1; b++) emit(Case("bilinear", {lead, {i1, i2, out}, {b}}));
+    });
+}
+static const double PD_EPS = (double)1e-6f, CS_EPS = (double)1e-8f;   // default arguments are float{1e-6} / float{1e-8}
+static Outcome execute_unit(const Case& c) {
+    if (c.op == "linear") {
+        const L& s = c.a[0]; const L& ws = c.a[1]; bool bias = c.a[2][0] != 0;
+        RArr x = values(s, 1), w = values(ws, 2), b = values({ws[0]}, 101, 7);
+        ROpt want = ref::linear(x, w, bias ? &b : nullptr);
+        if (!want) return Outcome::bad("wrong", "harness: case outside the domain was enumerated");
+        bool nt = s.back() >= 2 || want->size() >= 2;
+        auto X = make_arr<long>(x), W = make_arr<long>(w), Bi = make_arr<long>(b);
+        if (bias) return both(view::linear(X, W, Bi), na::linear(X, W, Bi), want, nt);
+        return both(view::linear(X, W), na::linear(X, W), want, nt);
+    }
+    if (c.op == "bilinear") {
+        const L& lead = c.a[0]; long i1 = c.a[1][0], i2 = c.a[1][1], out = c.a[1][2]; bool bias = c.a[2][0] != 0;
+        L s1(lead), s2(lead); s1.push_back(i1); s2.push_back(i2);
+        RArr x1 = values(s1, 1), x2 = values(s2, 3), w = values({out, i1, i2}, 2), b = values({out}, 101, 7);
+        ROpt want = ref::bilinear(x1, x2, w, bias ? &b : nullptr);
+        if (!want) return Outcome::bad("wrong", "harness: case outside the domain was enumerated");
+        bool nt = i1 * i2 >= 2 || want->size() >= 2;
+        auto X1 = make_arr<long>(x1), X2 = make_arr<long>(x2), W = make_arr<long>(w), Bi = make_arr<long>(b);
+        if (bias) return both(view::bilinear(X1, X2, W, Bi), na::bilinear(X1, X2, W, Bi), want, nt);
+        return both(view::bilinear(X1, X2, W), na::bilinear(X1, X2, W), want, nt);
+    }
+    const L& sa = c.a[0]; const L& sb = c.a[1];
+    RArr a = scrambled(sa, 0.5), b = scrambled(sb, 0.25, 1.0); std::reverse(b.data.begin(), b.data.end());
+    auto A = make_arr<double>(a), Bm = make_arr<double>(b);
+    if (c.op == "pairwise_distance") {
+        int ord = (int)c.a[2][0]; bool kd = c.a[2][1] != 0;
+        ROpt want = ref::pairwise_distance(a, b, ord, PD_EPS, kd);
+        if (!want) return Outcome::bad("wrong", "harness: case outside the domain was enumerated");
+        bool nt = std::max(sa.back(), sb.back()) >= 2;
+        float eps = 1e-6f;
+        if (kd) return both(view::pairwise_distance(A, Bm, ord, eps, nm::True), na::pairwise_distance(A, Bm, ord, eps, nm::True), want, nt, 1e-9);
+        return both(view::pairwise_distance(A, Bm, ord, eps, nm::False), na::pairwise_distance(A, Bm, ord, eps, nm::False), want, nt, 1e-9);
+    }
+    if (c.op == "cosine_similarity") {
+        int axis = (int)c.a[2][0];
+        ROpt want = ref::cosine_similarity(a, b, axis, CS_EPS);
+        if (!want) return Outcome::bad("wrong", "harness: case outside the domain was enumerated");
+        if (want->dim() == 0) return Outcome::ok(false, 3);   // 0-dim result (1-d operands): nmtools has no 0-dim arrays, not enumerated
+        auto bs = ref::broadcast_shapes({sa, sb}); long d = (long)bs->size(); long ax = axis < 0 ? axis + d : axis;
+        return both(view::cosine_similarity(A, Bm, axis), na::cosine_similarity(A, Bm, axis), want, (*bs)[(size_t)ax] >= 2, 1e-9);
+    }
+    nmc::die("unknown op");
+}
+static void selftest_unit() {
+    // upstream literals: linear case1c: x=[0,1,2,3], W=iota(3,4), b=[0,1,2] -> [14,39,64]
+    RArr x = values({4}, 0), W = values({3, 4}, 0), b = values({3}, 0);
+    ROpt r = ref::linear(x, W, &b); if (!r || r->shape != L{3} || r->data != std::vector<double>{14, 39, 64}) nmc::die("selftest: linear case1c");
+    RArr wv = values({4}, 0); r = ref::linear(x, wv, nullptr); if (!r || !r->shape.empty() || r->data[0] != 14) nmc::die("selftest: linear case1a (1-d weight)");
+    // bilinear case1a: a=b=[0,1,2], W=iota(2,3,3) -> [60, 141]
+    RArr a3 = values({3}, 0), W2 = values({2, 3, 3}, 0);
+    ROpt bl = ref::bilinear(a3, a3, W2, nullptr); if (!bl || bl->shape != L{2} || bl->data != std::vector<double>{60, 141}) nmc::die("selftest: bilinear case1a");
+    Obs tr; tr.shape = {2}; tr.data = {60, 141 + 1}; if (nmc::diff(tr, bl).empty()) nmc::die("selftest: oracle blind to a wrong bilinear element");
+    // pairwise_distance case1a: a=iota(12), b=a+12 -> 41.569218 ; cosine_similarity case1a row0 of iota(3,4) vs iota+12
+    RArr p1 = values({12}, 0), p2 = values({12}, 12);
+    ROpt pd = ref::pairwise_distance(p1, p2, 2, 1e-6, false); if (!pd || !pd->shape.empty() || std::fabs(pd->data[0] - 41.569218) > 1e-4) nmc::die("selftest: pairwise_distance case1a");
+    RArr c1 = values({3, 4}, 0), c2 = values({3, 4}, 12);
+    ROpt cs = ref::cosine_similarity(c1, c2, 1, 1e-8); double dot = 0 * 12 + 1 * 13 + 2 * 14 + 3 * 15, n1 = std::sqrt(14.0), n2 = std::sqrt(12. * 12 + 13 * 13 + 14 * 14 + 15 * 15);
+    if (!cs || cs->shape != L{3} || std::fabs(cs->data[0] - dot / (n1 * n2)) > 1e-12) nmc::die("selftest: cosine_similarity");
+    ROpt cs0 = ref::cosine_similarity(c1, c2, 0, 1e-8); if (!cs0 || cs0->shape != L{4}) nmc::die("selftest: cosine_similarity axis 0 shape");
+    Obs wrongax = cs0->obs(); if (nmc::diff(wrongax, cs, 1e-9).empty()) nmc::die("selftest: oracle blind to a wrong reduction axis");
 }
 #endif
 
